@@ -67,6 +67,20 @@ def run(ctx):
                             "reset did not make it cancellable again; SPURIOUS = sibling, isolated or parent context marked; STICKY = not cancelled afterwards / still cancelled after reset)" % (
                                 ctx.seed * 1000 + i, (lines or ["no output"])[-1], rc), {"tie": "ctx-race", "args": ["race", ctx.seed * 1000 + i]}))
             break
+    nl = ctx.scale(3, 30)
+    bad4 = 0
+    for i in range(nl):
+        rc, lines, err = ctx.run_driver(exe, ["life", ctx.seed * 1000 + 500 + i, 40], timeout=120)
+        ctx.count(("life", i), True, "life")
+        if rc != 0 or not lines or lines[-1].split()[1::2] != ["0", "0"]:
+            bad4 += 1
+            ctx.add(Finding("violation", "ctx-cancel-after-reset-misses-bound-descendant", "a context tree used over several rounds (contexts stay bound while an ancestor is reset - explicitly or by task_group::wait - "
+                            "and cancelled again; 40 rounds, seed %d): %s rc=%s (MISSED = after cancel_group_execution of an ancestor returned, a context still bound beneath it is not cancelled; RESETBAD = still cancelled after reset())" % (
+                                ctx.seed * 1000 + 500 + i, (lines or ["no output"])[-1], rc), {"tie": "ctx-life", "args": ["life", ctx.seed * 1000 + 500 + i, 40]}))
+            break
+    ctx.rules.append("life: chains of 1-3 explicit contexts beneath an isolated one, bound once, then 1-3 cycles of reset-all / cancel one ancestor: every context still bound beneath it is cancelled; "
+                     "a task_group (wait() resets its context) with a long-lived child context bound beneath it in the first round and reused in the second, cancelled through tg.cancel()")
+    ctx.ties.append({"name": "ctx-life (oracle only)", "cases": nl, "disagreements": bad4})
     ctx.rules.append("race: 2-6 threads call cancel_group_execution on one fresh bound context at once: exactly one true; it stays cancelled until reset(); sibling / isolated / parent contexts untouched")
     ctx.ties.append({"name": "ctx-race (oracle only)", "cases": nr, "disagreements": bad3})
     # directed replay of the second refutation witness (cancel_misses_child_of_parentless_context_refuted): libtbb compiled under the prelude, delays injected before the accesses to the child's flag
